@@ -59,6 +59,7 @@ type Solver struct {
 	all      bool // thorough: run every solver and compare
 	mu       sync.Mutex
 	solverS  float64
+	seq      int
 	versions string
 }
 
@@ -230,7 +231,11 @@ func (s *Solver) solveOne(d *Decls, o *Obligation) *Result {
 			}
 		}
 	}
-	file := filepath.Join(s.dir, h+".smt2")
+	s.mu.Lock()
+	s.seq++
+	seq := s.seq
+	s.mu.Unlock()
+	file := filepath.Join(s.dir, fmt.Sprintf("%s-%d.smt2", h[:16], seq))
 	if err := os.WriteFile(file, []byte(q), 0o644); err != nil {
 		r.Status, r.Answer = "fault", err.Error()
 		return r
